@@ -47,7 +47,7 @@ func streamMac(c *ctx) {
 		lens = append(lens, l)
 	}
 	lens = append(lens, 55, 56, 57, 63, 64, 65, 111, 112, 113, 119, 120, 127, 128, 129, 191, 192, 193, 255, 256, 257, 300, 511, 1000)
-	long := []int{4095, 4096, 4097, 5000}
+	long := []int{4095, 4096, 4097, 5000, 8176, 8177, 8193, 9001, 12301}
 	if c.thorough() {
 		long = append(long, 16384, 65535, 65536)
 		for l := 41; l <= 400; l++ {
